@@ -343,6 +343,10 @@ def invariants(chk, binp, thorough):
     # model's domain (Model/Simple.v excludes spaces), judged against the font's own tables
     res = run_parts(binp, [["c16", "spaces", "--seed", chk.seed + 15485863 * p, "--n", max(1, n // parts), "--per", pg] for p in range(parts)])
     collect_inv(chk, res, r"spaces-summary ", fails, known_seen, "fallback_space_metrics")
+    # runs in which OTHER characters are replaced by their canonical decomposition (the font lacks them; the model's
+    # alphabet excludes decomposable characters): every mapped non-mark character keeps its cmap glyph and metrics
+    res = run_parts(binp, [["c16", "singletons", "--seed", chk.seed + 32452843 * p, "--n", max(1, n // parts), "--per", pg] for p in range(parts)])
+    collect_inv(chk, res, r"singletons-summary ", fails, known_seen, "decomposing_run_metrics")
     return fails, known_seen
 
 
